@@ -36,6 +36,11 @@ pub struct Scn {
     pub chunks: Vec<usize>,
     pub short_io: bool,
     pub ending: Ending,
+    /// Some(k): the emulator process ends like the shipped `main` does - k scheduling steps after run()
+    /// returned the process is gone, whatever the send worker has not written by then is lost.
+    /// None: a main that waits for its worker threads.
+    #[serde(default)]
+    pub exit_after: Option<u32>,
     /// shuttle scheduler: 0 = random, d > 0 = PCT of depth d
     pub pct_depth: usize,
     pub sched_seed: u64,
@@ -145,7 +150,7 @@ fn stream_bytes(scn: &Scn) -> Vec<u8> {
 /// One shuttle execution. Panics (inside shuttle) iff an oracle fails; the failure is left in `slot`.
 fn body(scn: &Scn, g: &Guest, slot: &Arc<Mutex<Option<ExecResult>>>) {
     let bytes = stream_bytes(scn);
-    let (emu, ctl) = simstd::net::pair(scn.short_io);
+    let (emu, ctl, process) = simstd::net::pair(scn.short_io);
     simstd::net::register_incoming(emu);
     let mut ctl_w = ctl.try_clone().unwrap();
     let mut ctl_r = ctl;
@@ -238,6 +243,13 @@ fn body(scn: &Scn, g: &Guest, slot: &Arc<Mutex<Option<ExecResult>>>) {
     let exited = final_pc == cpu.exit_addr;
     // dropping the Cpu drops both senders: the send worker drains its queue and shuts the stream down
     drop(cpu);
+    if let Some(k) = scn.exit_after {
+        // main returns: the process is gone a few steps later, worker threads die wherever they are
+        for _ in 0..k {
+            shuttle::thread::yield_now();
+        }
+        process.exit();
+    }
     let written = writer.join().unwrap();
     let received = reader.join().unwrap();
     let cb = cbs.borrow();
@@ -245,10 +257,12 @@ fn body(scn: &Scn, g: &Guest, slot: &Arc<Mutex<Option<ExecResult>>>) {
     // ---- oracles
     let mut stats = Stats::new();
     let mut sig = Fnv::new();
-    let fail = |f: Failure| -> ! {
-        *slot.lock().unwrap() = Some(ExecResult { failure: Some(f), sig: 0, stats: Stats::new() });
-        panic!("oracle");
-    };
+    macro_rules! fail {
+        ($f:expr) => {{
+            *slot.lock().unwrap() = Some(ExecResult { failure: Some($f), sig: 0, stats: Stats::new() });
+            return;
+        }};
+    }
     // which complete lines did the controller get out before the stream ended
     let sent = &bytes[..written.min(bytes.len())];
     let mut complete: Vec<String> = Vec::new();
@@ -295,7 +309,7 @@ fn body(scn: &Scn, g: &Guest, slot: &Arc<Mutex<Option<ExecResult>>>) {
         for s in &cb.seq_samples {
             match seq_sent.iter().skip(idx).position(|v| v == s) {
                 Some(off) => idx += off,
-                None => fail(Failure::new("c18.net.order", format!("the sequence cell showed {:02x?} over time; values sent in order were {:02x?} - out of order, re-applied or invented", cb.seq_samples, seq_sent))),
+                None => fail!(Failure::new("c18.net.order", format!("the sequence cell showed {:02x?} over time; values sent in order were {:02x?} - out of order, re-applied or invented", cb.seq_samples, seq_sent))),
             }
         }
     }
@@ -306,21 +320,21 @@ fn body(scn: &Scn, g: &Guest, slot: &Arc<Mutex<Option<ExecResult>>>) {
             let full = states[complete.len()].clone();
             if !matches_state(&full) {
                 let diff: Vec<String> = final_mem.iter().filter(|(a, v)| full.pokes.get(a).copied().unwrap_or(0) != **v).take(3).map(|(a, v)| format!("{:06x}: found {:02x}, lines make it {:02x}", a, v, full.pokes.get(a).copied().unwrap_or(0))).collect();
-                fail(Failure::new("c18.net.lost", format!("run() was ended by cmd:stop but not every earlier line is in effect: {}", diff.join("; "))));
+                fail!(Failure::new("c18.net.lost", format!("run() was ended by cmd:stop but not every earlier line is in effect: {}", diff.join("; "))));
             }
             bump(&mut stats, "probe.ended_by_stop_all_lines_applied");
         }
         (Ending::Stop, Outcome::Abort(_)) if stop_sent => {
-            fail(Failure::new("c18.net.stop", format!("cmd:stop was written ({} complete lines) but run() never returned within {} iterations", complete.len(), scn.step_cap)));
+            fail!(Failure::new("c18.net.stop", format!("cmd:stop was written ({} complete lines) but run() never returned within {} iterations", complete.len(), scn.step_cap)));
         }
         (_, Outcome::Ok) | (_, Outcome::Abort(_)) => {
             // the guest ended on its own (or the stop never got out): the image must equal the model after SOME prefix
             if !states.iter().any(|st| matches_state(st)) {
-                fail(Failure::new("c18.net.prefix", "the poked bytes equal the reference interpreter's state after no prefix of the lines that were sent (a line was skipped, half-applied or applied out of order)".to_string()));
+                fail!(Failure::new("c18.net.prefix", "the poked bytes equal the reference interpreter's state after no prefix of the lines that were sent (a line was skipped, half-applied or applied out of order)".to_string()));
             }
             bump(&mut stats, "probe.prefix_consistency_checked");
         }
-        (_, other) => fail(Failure::new("c18.net.error", format!("run ended with {:?}", other))),
+        (_, other) => fail!(Failure::new("c18.net.error", format!("run ended with {:?}", other))),
     }
     // (2) framing: the byte stream is exactly the emitted messages, one escaped line each, in order
     let mut expect: Vec<Vec<u8>> = Vec::new();
@@ -334,12 +348,39 @@ fn body(scn: &Scn, g: &Guest, slot: &Arc<Mutex<Option<ExecResult>>>) {
             expect.push(t);
         }
     }
+    if scn.exit_after.is_some() {
+        let mut full: Vec<u8> = Vec::new();
+        for e in &expect {
+            match std::str::from_utf8(e) {
+                Ok(t) => full.extend_from_slice(&escape(t)),
+                Err(_) => full.extend_from_slice(e),
+            }
+            full.push(b'\n');
+        }
+        if received != full {
+            if received.len() < full.len() && full[..received.len()] == received[..] {
+                // exactly the known deviation: the stream is a proper prefix of what was emitted
+                *slot.lock().unwrap() = Some(ExecResult {
+                    failure: Some(Failure::keyed(
+                        "c18.net.exit-race",
+                        "C18/exit-race-loses-queued-messages",
+                        format!("{} message(s) were emitted ({} bytes) but only the first {} bytes were transmitted before the process was gone", expect.len(), full.len(), received.len()),
+                    )),
+                    sig: 0,
+                    stats: Stats::new(),
+                });
+                return;
+            }
+        } else {
+            bump(&mut stats, "probe.exit_race_all_messages_transmitted");
+        }
+    }
     if !received.is_empty() && *received.last().unwrap() != b'\n' {
-        fail(Failure::new("c18.net.framing", format!("the transmitted stream does not end with a newline ({} bytes)", received.len())));
+        fail!(Failure::new("c18.net.framing", format!("the transmitted stream does not end with a newline ({} bytes)", received.len())));
     }
     let recs: Vec<&[u8]> = if received.is_empty() { vec![] } else { received[..received.len() - 1].split(|b| *b == b'\n').collect() };
     if recs.len() != expect.len() {
-        fail(Failure::new(
+        fail!(Failure::new(
             "c18.net.framing",
             format!("{} message(s) were emitted but the stream holds {} line(s): {:?}", expect.len(), recs.len(), String::from_utf8_lossy(&received).chars().take(200).collect::<String>()),
         ));
@@ -347,8 +388,8 @@ fn body(scn: &Scn, g: &Guest, slot: &Arc<Mutex<Option<ExecResult>>>) {
     for (i, (r, e)) in recs.iter().zip(expect.iter()).enumerate() {
         match unescape(r) {
             Some(u) if &u == e => {}
-            Some(u) => fail(Failure::new("c18.net.framing", format!("line {} unescapes to {:?}, the message emitted was {:?}", i, String::from_utf8_lossy(&u), String::from_utf8_lossy(e)))),
-            None => fail(Failure::new("c18.net.framing", format!("line {} is not a valid escaped record: {:?}", i, String::from_utf8_lossy(r)))),
+            Some(u) => fail!(Failure::new("c18.net.framing", format!("line {} unescapes to {:?}, the message emitted was {:?}", i, String::from_utf8_lossy(&u), String::from_utf8_lossy(e)))),
+            None => fail!(Failure::new("c18.net.framing", format!("line {} is not a valid escaped record: {:?}", i, String::from_utf8_lossy(r)))),
         }
         if *r != &escape(std::str::from_utf8(e).unwrap_or(""))[..] && std::str::from_utf8(e).is_ok() {
             // same text but a different escaping (e.g. an unnecessary escape): still reversible, accepted
@@ -367,6 +408,13 @@ fn body(scn: &Scn, g: &Guest, slot: &Arc<Mutex<Option<ExecResult>>>) {
     }
     if exited {
         bump(&mut stats, "probe.guest_ran_to_exit");
+    }
+    trace_fold(cb.iter);
+    trace_fold_bytes(&cb.seq_samples);
+    trace_fold_bytes(&received);
+    trace_fold(written as u64);
+    for (a, v) in &final_mem {
+        trace_fold(((*a as u64) << 8) | *v as u64);
     }
     sig.u64(cb.iter.min(4096));
     sig.u64(cb.seq_samples.len() as u64);
@@ -400,7 +448,6 @@ fn run_one(scn: &Scn, g: &Guest, seed: u64) -> ExecResult {
     let got = slot.lock().unwrap().take();
     match (r, got) {
         (Ok(()), Some(res)) => res,
-        (Err(_), Some(res)) if res.failure.is_some() => res,
         (Err(_), _) => {
             let p = take_panic().unwrap_or(PanicInfo { file: "?".into(), line: 0, msg: "?".into() });
             let oracle = if p.msg.contains("deadlock") {
@@ -516,6 +563,7 @@ impl Property for C18N {
             chunks,
             short_io: rng.chance(1, 2),
             ending,
+            exit_after: if rng.chance(1, 2) { Some(rng.below(40) as u32) } else { None },
             pct_depth: 0,
             sched_seed: rng.next_u64(),
             sched_tries: 1,
@@ -581,6 +629,9 @@ impl Property for C18N {
         if scn.short_io {
             bump(stats, "event.short_reads_and_writes");
         }
+        if scn.exit_after.is_some() {
+            bump(stats, "event.process_exit_race");
+        }
         Verdict::Pass { sig: sig.0, nontrivial: !scn.lines.is_empty() }
     }
 
@@ -606,6 +657,12 @@ impl Property for C18N {
         }
         if scn.short_io {
             out.push(search(Scn { short_io: false, ..scn.clone() }));
+        }
+        if let Some(k) = scn.exit_after {
+            if k > 0 {
+                out.push(search(Scn { exit_after: Some(0), ..scn.clone() }));
+                out.push(search(Scn { exit_after: Some(k / 2), ..scn.clone() }));
+            }
         }
         // fewer guest blocks (keep a trailing spin)
         let nb = scn.guest.blocks.len();
